@@ -413,6 +413,27 @@ def edit_payload_leaf(content, rng, path=None):
     return c, {"path": list(path), "old": old, "new": new}
 
 
+def surrogate_edit(content, rng):
+    """Replaces one non-ASCII character of one string leaf of the signed content by the lone surrogates that stand for
+    its UTF-8 bytes under Python's 'surrogateescape' error handler (é -> U+DCC3 U+DCA9): a different string, which an
+    encoder that escapes surrogates back to bytes maps to the *same* bytes. Content edited after signing like any
+    other. Returns (new content, description) or None (no non-ASCII leaf; DSSE payloads are edited in their JSON text)."""
+    import base64
+    c = copy.deepcopy(content)
+    body = c["signed"] if "signed" in c else json.loads(base64.b64decode(c["payload"]))
+    cands = [pth for pth in leaves(body) if isinstance(get_at(body, pth), str) and any(ord(ch) > 127 and not 0xD800 <= ord(ch) <= 0xDFFF for ch in get_at(body, pth))]
+    if not cands:
+        return None
+    pth = rng.choice(cands)
+    old = get_at(body, pth)
+    k = rng.choice([j for j, ch in enumerate(old) if ord(ch) > 127 and not 0xD800 <= ord(ch) <= 0xDFFF])
+    new = old[:k] + "".join(chr(0xDC00 + b) for b in old[k].encode("utf8")) + old[k + 1:]
+    set_at(body, pth, new)
+    if "signed" not in c:
+        c["payload"] = base64.b64encode(json.dumps(body, sort_keys=True).encode("ascii")).decode()
+    return c, {"path": list(pth), "old": old, "new_escaped": json.dumps(new)}
+
+
 FALSY = [None, False, 0, "", [], {}]
 
 
